@@ -556,3 +556,11 @@ pub fn subs(_ctx: &Ctx) -> Vec<Box<dyn Sub>> {
         prop_sub("pairs-mutation-walk", 20_000, 600_000, walk_pair(), check_walk),
     ]
 }
+
+pub fn micro_universe_pub() -> &'static Vec<AState> {
+    micro_universe()
+}
+
+pub fn mseed_pub() -> impl Strategy<Value = MSeed> {
+    mseed()
+}
